@@ -40,6 +40,67 @@ def rust_f64_display(v, precision=None):
     return r
 
 
+# ---- UTF-8 well-formedness (Unicode 15 table 3-7, what core::str::from_utf8 accepts) as a DFA over bytes
+#      states: 0 accept, 1 one continuation byte due, 2 two due, 3 after E0, 4 after ED, 5 after F1..F3, 6 after F0, 7 after F4, 8 reject
+def _utf8_next(state, b):
+    if state == 0:
+        if b < 0x80:
+            return 0
+        if 0xC2 <= b <= 0xDF:
+            return 1
+        if b == 0xE0:
+            return 3
+        if 0xE1 <= b <= 0xEC or 0xEE <= b <= 0xEF:
+            return 2
+        if b == 0xED:
+            return 4
+        if b == 0xF0:
+            return 6
+        if 0xF1 <= b <= 0xF3:
+            return 5
+        if b == 0xF4:
+            return 7
+        return 8
+    lo, hi, nxt = {1: (0x80, 0xBF, 0), 2: (0x80, 0xBF, 1), 3: (0xA0, 0xBF, 1), 4: (0x80, 0x9F, 1),
+                   5: (0x80, 0xBF, 2), 6: (0x90, 0xBF, 2), 7: (0x80, 0x8F, 2), 8: (1, 0, 8)}[state]
+    return nxt if lo <= b <= hi else 8
+
+
+_UTF8_TABLES = [[_utf8_next(st, b) for b in range(256)] for st in range(9)]
+
+
+def utf8_valid(items):
+    """width-1 term: the byte sequence is well-formed UTF-8"""
+    state = 0
+    for it in items:
+        b = it
+        if type(b) is Term and b.w != 8:
+            b = T.trunc(b.w, 8, b)
+        if type(state) is int:
+            state = _UTF8_TABLES[state][b] if type(b) is int else T.lut(_UTF8_TABLES[state], b, 4)
+        else:
+            nxt = 8
+            for st in range(8, -1, -1):
+                v = _UTF8_TABLES[st][b] if type(b) is int else T.lut(_UTF8_TABLES[st], b, 4)
+                nxt = T.ite(4, T.eq(4, state, st), v, nxt)
+            state = nxt
+    return T.eq(4, state, 0)
+
+
+def char_boundary(items, k):
+    """width-1 term: byte offset k is a char boundary of the UTF-8 string `items` (str::is_char_boundary)"""
+    if k == 0 or k == len(items):
+        return 1
+    if k > len(items):
+        return 0
+    b = items[k]
+    if type(b) is int:
+        return 0 if 0x80 <= b <= 0xBF else 1
+    if b.w != 8:
+        b = T.trunc(b.w, 8, b)
+    return T.ne(8, T.band(8, b, 0xC0), 0x80)
+
+
 def register(lib):
     I = lib.I
     reg = lib.reg
@@ -82,16 +143,29 @@ def register(lib):
                 out.append(it)
         return out
 
+    def is_byte_item(it):
+        """a symbolic item whose value is at most 255 is one byte of the UTF-8 encoding of the string (the checks build
+        symbolic strings from bytes: 7-bit for ASCII text, 8-bit under the assumption utf8_valid(..) for arbitrary text)"""
+        return type(it) is Term and T.umax(it, it.w) <= 0xFF
+
+    def may_be_non_ascii(it):
+        return (type(it) is int and it >= 0x80) or (type(it) is Term and T.umax(it, it.w) >= 0x80)
+
     def utf8_len(items):
         n = 0
         for it in items:
             if type(it) is int:
                 n += 1 if it < 0x80 else (2 if it < 0x800 else (3 if it < 0x10000 else 4))
-            elif type(it) is Term and T.umax(it, 32) < 0x80:
-                n += 1          # a symbolic character known to be ASCII is one byte
+            elif is_byte_item(it):
+                n += 1
             else:
                 raise Unsupported('byte length of a string with symbolic pieces')
         return n
+
+    lib.is_byte_item = is_byte_item
+    lib.may_be_non_ascii = may_be_non_ascii
+    lib.utf8_valid = utf8_valid
+    lib.char_boundary = char_boundary
 
     # ---- String basics
     @reg(r'^String::new$', 'String::new')
@@ -198,8 +272,8 @@ def register(lib):
         if sl is None:
             raise Unsupported('as_bytes of %r' % (v,))
         items = sl.items()
-        if all((type(x) is int and x < 0x80) or (type(x) is Term and T.umax(x, x.w) < 0x80) for x in items):
-            return sl                      # ASCII content: the code points are the bytes (same buffer)
+        if all((type(x) is int and x < 0x80) or is_byte_item(x) for x in items):
+            return sl                      # ASCII characters / symbolic bytes: the items are the bytes (same buffer)
         if all(type(x) is int for x in items):
             enc = ''.join(chr(x) for x in items).encode('utf-8')
             buf = I.mk(list(enc), 'bytes')
@@ -261,6 +335,21 @@ def register(lib):
     def _contains_ch(fr, name, args, ops):
         return T.or_many([T.eq(32, x, args[1]) for x in plain(str_items(args[0]), 'contains')] or [0])
 
+    def known_ascii_under_pc(item):
+        """does the current path condition force this one-variable byte below 0x80?  (exhaustive over the 256 values)"""
+        sup = T.support(item)
+        if len(sup) != 1:
+            return False
+        nm = list(sup)[0]
+        conds = [c for c in I.pc if isinstance(c, Term) and T.support(c) == sup]
+        if not conds:
+            return False
+        for val in range(256):
+            env = {nm: val}
+            if all(T.evaluate(c, env) for c in conds) and T.evaluate(item, env) >= 0x80:
+                return False
+        return True
+
     @reg(r"^<(std::borrow::)?Cow<('_, )?str> as Deref>::deref$", 'Cow<str>::deref')
     def _cow_deref(fr, name, args, ops):
         v = lib.deref(args[0])
@@ -281,6 +370,10 @@ def register(lib):
         if idx >= len(buf):
             return I.panic(fr, 'cannot remove a char from the end of a string')
         ch = buf[idx]
+        if type(ch) is Term and T.umax(ch, ch.w) >= 0x80 and not known_ascii_under_pc(ch):
+            raise Unsupported('String::remove of a character of unknown byte length')
+        if any(may_be_non_ascii(x) for x in buf[:idx] if type(x) in (int, Term)):
+            raise Unsupported('String::remove after non-ASCII content (char index vs byte index)')
         I.structural(buf)
         del buf[idx]
         return ch
@@ -298,7 +391,13 @@ def register(lib):
                 return lib.err(I.mk(['Utf8Error'], 'opaque'))
             buf = I.mk([ord(c) for c in txt], 'StrBuf')
             return lib.ok(SliceRef(buf, 0, len(buf), True))
-        raise Unsupported('from_utf8 of symbolic non-ASCII bytes')
+        if all((type(x) is int and x <= 0xFF) or is_byte_item(x) for x in items):
+            valid = utf8_valid(items)
+            view = SliceRef(sl.c, sl.start, sl.len, True)
+            if type(valid) is int:
+                return lib.ok(view) if valid else lib.err(I.mk(['Utf8Error'], 'opaque'))
+            return I.mk([T.zext(1, 64, T.lnot(valid)), {0: I.mk([view]), 1: I.mk([I.mk(['Utf8Error'], 'opaque')])}], 'symenum')
+        raise Unsupported('from_utf8 of items that are not bytes')
 
     @reg(r'^core::num::<impl u8>::from_str_radix$', 'u8::from_str_radix')
     def _from_str_radix(fr, name, args, ops):
@@ -347,6 +446,8 @@ def register(lib):
         items = str_items(args[0])
         if any(type(x) not in (int, Term) for x in items):
             raise Unsupported('chars() over a string with conditional pieces')
+        if any(type(x) is Term and T.umax(x, x.w) >= 0x80 for x in items):
+            raise Unsupported('chars() over symbolic bytes that may be non-ASCII (decoding not modelled)')
         return I.mk([I.mk(list(items)), 0], 'ArrIter')
 
     # ---- fmt
